@@ -60,6 +60,7 @@ Proof.
   destruct (negb (parent_registered w parent)); [discriminate|].
   destruct (resolve_object_address w q) as [t|] eqn:Rq; [|discriminate].
   destruct (alookup t (objects w)) as [o|] eqn:Ho; [|discriminate].
+  destruct (precheck c w parent nm); [discriminate|].
   set (w1 := set_objects w _) in H.
   destruct (link_to_parent c w1 parent nm t) as [w2 [|e]] eqn:LT; [|discriminate]. inversion H; subst w'. clear H.
   exists t.
